@@ -254,6 +254,70 @@ theorem c10_symfile_two_libs_witness :
       moduleTable twoLibsDir ws "/b/libp.so".toList "bbbb22".toList = [⟨0x100, 0x20, 'T', "blue".toList⟩] := by
   decide
 
+/-! ## writer and reader of the symbol files agree (save_module_symtabs vs load_module_symbol) -/
+
+/-- Writer/reader agreement on WHICH file holds WHICH module's symbols.  `record` saves the
+    modules in any order (`save_module_symbol_file` as coded: `<base>.sym` if free; else the
+    header of `<base>.sym` is compared by path name AND build-id — equal: already saved,
+    different: `<base>-<id4 | path checksum>.sym` unless taken).  For every set of modules
+    — any path names, equal base names with different build-ids, the same build-id under
+    different path names, with and without build-ids — that is consistent (`Consistent`: a
+    path names one file, a build-id one binary, alternative names collide only for
+    installations of one binary, every binary has a build-id under `--with-syms`), the file
+    `load_module_symbol` selects for a module with symbols exists and holds that module's
+    table (written for the module itself or for another installation of the same binary). -/
+theorem c10_symfile_writer_reader_agree (ws : Bool) (ms : List Mod) (hC : Consistent ws ms)
+    (m : Mod) (hm : m ∈ ms) (hne : m.tab ≠ []) :
+    ∃ m' ∈ ms, m'.tab = m.tab ∧
+      (saveAll ms).get (selectSymName (saveAll ms) ws m.path m.bid) =
+        some (save 0 m'.path m'.bid m'.tab) :=
+  writer_reader_agree ws ms hC m hm hne
+
+/-- … hence the analysis without the binaries (SYMTAB_FL_USE_SYMFILE, nothing to fall back
+    to) works on the very table record had in memory, for every module of the recording. -/
+theorem c10_symfile_saved_tables_reload (ws : Bool) (ms : List Mod) (hC : Consistent ws ms)
+    (m : Mod) (hm : m ∈ ms) (hne : m.tab ≠ []) (hsorted : AddrSorted m.tab) (hnd : NoAdjDup m.tab) :
+    moduleTable (saveAll ms) ws m.path m.bid = m.tab := by
+  obtain ⟨m', hm', htab, hg⟩ := c10_symfile_writer_reader_agree ws ms hC m hm hne
+  obtain ⟨hp, hb, _, hok⟩ := hC.ok m' hm'
+  unfold moduleTable
+  simp only [hg]
+  rw [c10_load_save 0 m'.path m'.bid m'.tab hp hb hok (htab ▸ hsorted) (htab ▸ hnd), htab]
+
+/-- one binary installed under two path names with the same base name (`v1/stage` exec()s its
+    copy `v2/stage`), a different binary of that name, and a build-id-less one -/
+def stageMods : List Mod :=
+  [⟨"/v1/stage".toList, "ab12cd".toList, [⟨0x100, 0x10, 'T', "first".toList⟩]⟩,
+   ⟨"/v2/stage".toList, "ab12cd".toList, [⟨0x100, 0x10, 'T', "first".toList⟩]⟩,
+   ⟨"/v3/stage".toList, "ee34cd".toList, [⟨0x200, 0x20, 'T', "other".toList⟩]⟩,
+   ⟨"/v4/stage".toList, [], [⟨0x300, 0x30, 't', "noid".toList⟩]⟩]
+
+/-- Non-vacuity: the hypotheses hold for that recording (without `--with-syms`; with it for
+    the three installations that have a build-id) … -/
+example : Consistent false stageMods ∧ Consistent true (stageMods.take 3) := by
+  have hs : ∀ s ∈ [(⟨0x100, 0x10, 'T', "first".toList⟩ : Sym), ⟨0x200, 0x20, 'T', "other".toList⟩,
+      ⟨0x300, 0x30, 't', "noid".toList⟩], SaveOk s := by
+    intro s h
+    simp only [List.mem_cons, List.not_mem_nil, or_false] at h
+    rcases h with e | e | e <;> subst e <;> constructor <;> decide
+  have hok : ∀ m ∈ stageMods, '\n' ∉ m.path ∧ '\n' ∉ m.bid ∧ m.bid.length ≤ 40 ∧ ∀ s ∈ m.tab, SaveOk s := by
+    intro m h
+    simp only [stageMods, List.mem_cons, List.not_mem_nil, or_false] at h
+    rcases h with e | e | e | e <;> subst e <;>
+      exact ⟨by decide, by decide, by decide, fun s h => hs s (by simp at h; simp [h])⟩
+  constructor
+  · exact ⟨hok, by decide, by decide, by decide, by decide, by decide⟩
+  · exact ⟨fun m h => hok m (List.mem_of_mem_take h), by decide, by decide, by decide, by decide, by decide⟩
+
+/-- … and the instance itself, evaluated: every installation gets its table back in both modes
+    (the build-id-less one only where the path name is compared). -/
+theorem c10_symfile_same_binary_two_paths_witness :
+    (∀ ws : Bool, ∀ m ∈ stageMods.take 3, moduleTable (saveAll (stageMods.take 3)) ws m.path m.bid = m.tab) ∧
+    (∀ m ∈ stageMods, moduleTable (saveAll stageMods) false m.path m.bid = m.tab) ∧
+    ((saveAll stageMods).map (·.1) =
+      ["stage.sym".toList, "stage-ab12.sym".toList, "stage-ee34.sym".toList, "stage-031c.sym".toList]) := by
+  decide
+
 /-! ## session in force at a timestamp -/
 
 /-- References added in time order: the session used for time `t` is the one of the
